@@ -562,7 +562,7 @@ def static_obligations(tier, seed):
 # =====================================================================================================================
 # (3) bounded stand-in: the selection formula against the real paths_from_path
 # =====================================================================================================================
-DIR_NAMES = ("a", "sub", "dir1", "dir2", "b")
+DIR_NAMES = ("a", "sub", "dir1", "dir2", "b", "a2", "sub_old")   # a|a2 and sub|sub_old: one sibling name is a prefix of the other
 FILE_NAMES = ("a.sql", "b.sql", "c.sql", "keep.sql", "c.txt", "d.SQL", "e.sql.j2")
 PATTERNS = ("c.sql", "*.sql", "sub/", "/a.sql", "**/b.sql", "!keep.sql", "dir*/", "# a comment", "", "a.sql", "sub/b.sql", "/sub/a.sql",
             "dir1/", "b.*", "/dir2", "sub/*", "*/c.sql", "!b.sql", "d.SQL", "*.SQL", "/b", "a/", "keep.sql", "e.sql.j2", "*.j2", "!*.j2",
